@@ -44,10 +44,10 @@ def _run(ctx, gradient, k_facts, fn="fdtdx.fdtd.wrapper.run_fdtd", **kw):
     return d, arr, r
 
 
-def _strategies(ctx):
+def _strategies(ctx, slices=(1, 2, 3, 4), with_plain=True):
     T = integer_atom("T")
-    cases = [("no gradient configuration", None, 1), ("checkpointed", dict(method="checkpointed"), 1)]
-    for k in (1, 2, 3, 4):
+    cases = [("no gradient configuration", None, 1), ("checkpointed", dict(method="checkpointed"), 1)] if with_plain else [("no gradient configuration", None, 1)]
+    for k in slices:
         cases.append((f"reversible, {k} slice{'s' if k > 1 else ''}", dict(method="reversible", num_checkpoints_reversible=k - 1), k))
     ref = None
     for label, grad, k in cases:
@@ -88,12 +88,12 @@ def _guard(ctx):
         ctx.ob("R5.3", f"reversible_fdtd:guard[k={k} > T]", isinstance(r, Raised) and not d.slice_calls and not d.loops, "more slices than time steps are rejected before any boundary is computed or step taken", str(r)[:120], "raise")
 
 
-def _partition(ctx):
+def _partition(ctx, ks=range(1, 7)):
     ix = ctx.index
     f = ix.function("fdtdx.fdtd.fdtd._reversible_slice_boundaries")
     ctx.unit(f.where())
     T = integer_atom("T")
-    for k in range(1, 7):
+    for k in ks:
         it = ctx.fresh_interp()
         try:
             res = it.call(it.closure_of(f), [T, k], {})
@@ -166,6 +166,12 @@ def _dispatch(ctx):
             kw = seen[0][1]
             ok = kw.get("arrays") is arr and kw.get("objects") is objs and kw.get("config") is cfg and to_rat(kw.get("key")).equals(key)
         ctx.ob("R5.5", f"run_fdtd:dispatch[{label}]", ok, f"dispatches to {want} with the caller's arrays, objects, config and key", [s[0] for s in seen], want)
+
+
+def run_thorough(ctx):
+    """More slices (5..9) against the gradient-free run; the partition contract up to 24 slices."""
+    _strategies(ctx, slices=(5, 6, 7, 8, 9), with_plain=False)
+    _partition(ctx, ks=range(7, 25))
 
 
 def run(ctx):
